@@ -803,6 +803,16 @@ def ctor_cases(quick):
         ("sse", {"kind": "sse", "events": [{"data": "x"}]}),
         ("file", {"kind": "file", "name": "f.txt", "size": 12, "chunk": 5}), ("file-download", {"kind": "file", "name": "data", "size": 5, "chunk": 64, "download_name": "naïve.txt"}),
     ]
+    # media_type argument spellings (with its own parameters, other case, non-text types) x charset argument, plain and html
+    for kind in ("plain", "html"):
+        for mt in ("text/csv; charset=utf-8", "text/plain; charset=latin-1", "text/plain;charset=UTF-8", "TEXT/CSV", "Text/Html; Charset=utf-8", "text/plain; format=flowed",
+                   "text/x; q=\"charset=\"", "application/xml", "application/xml; charset=utf-8", "image/svg+xml", "texture/x", "text", "text/"):
+            for cs in (None, "latin-1", "utf-16"):
+                rcp = {"kind": kind, "content": "h\u00e9", "media_type": mt}
+                if cs:
+                    rcp["charset"] = cs
+                recipes_.append((f"{kind}-media-type:{mt}:{cs}", rcp))
+                recipes_.append((f"{kind}-media-type+own:{mt}:{cs}", {**rcp, "headers": {"content-type": "a/b"}}))
     for name, base in bases:
         recipes_.append((name, base))
         for h in own:
